@@ -189,7 +189,7 @@ Section Demand.
         destruct (s_is_batch s) eqn:E; cbn [negb map fst zsum].
         - rewrite IH'. lia.
         - rewrite IH', (Hx t s (or_introl eq_refl) E). reflexivity. }
-      apply G. intros t s Hin Hb. destruct (wi_ex_task _ _ HI t s (in_zfind _ _ _ (wi_nd_placed _ _ HI) Hin) Hb) as (l & E1 & _ & E3).
+      apply G. intros t s Hin Hb. destruct (wi_ex_task _ _ HI t s (in_zfind _ _ _ (wi_nd_placed _ _ HI) Hin) Hb) as (l & E1 & E3).
       unfold f, al_get. fold a in E1. rewrite E1. apply E3.
     - (* batches, each once *)
       unfold demand_batches. rewrite !zsum_map.
@@ -219,7 +219,7 @@ Section Demand.
       induction bt as [|[sid b] bt IHb]; intros Hex Nk; cbn [map zsum fst snd]; [reflexivity|].
       cbn [map fst] in Nk. inversion Nk as [|x y K1 K2]; subst.
       rewrite IHb; [|intros sid' b' E'; apply Hex; cbn [zfind]; destruct (sid =? sid') eqn:E; [exfalso; apply K1; assert (sid = sid') by lia; subst; apply zfind_in in E'; apply (in_map fst) in E'; exact E'|exact E']|exact K2].
-      f_equal. destruct (Hex sid b) as (l & E1 & _ & E3); [cbn [zfind]; rewrite Z.eqb_refl; reflexivity|].
+      f_equal. destruct (Hex sid b) as (l & E1 & E3); [cbn [zfind]; rewrite Z.eqb_refl; reflexivity|].
       unfold f, al_get. fold a in E1. rewrite E1. unfold g. symmetry. apply E3.
     - (* profiles *)
       unfold demand_profiles. rewrite zsum_map, <- map_app, zsum_map.
@@ -230,7 +230,7 @@ Section Demand.
       apply G. intros p s Hin. apply in_app_or in Hin.
       assert (Hh : zfind p (w_avail_prof w) = Some s \/ zfind p (w_pend_prof w) = Some s).
       { destruct Hin as [Hin|Hin]; [left; apply in_zfind; [apply (wi_nd_avail _ _ HI)|exact Hin]|right; apply in_zfind; [apply (wi_nd_pend _ _ HI)|exact Hin]]. }
-      destruct (wi_ex_prof _ _ HI p s Hh) as (l0 & E1 & _ & E3). unfold f, al_get. fold a in E1. rewrite E1. apply E3.
+      destruct (wi_ex_prof _ _ HI p s Hh) as (l0 & E1 & E3). unfold f, al_get. fold a in E1. rewrite E1. apply E3.
   Qed.
 
   (* C01, worker half: the residents never demand more than the configured capacity *)
